@@ -160,18 +160,41 @@ class Ctx:
         }
 
 
+class ItemTimeout(BaseException):
+    """A single work item exceeded its time budget (a BaseException so that neither the
+    monitor's nor the library's `except Exception` swallows it). Inconclusive, never a violation."""
+
+
 def run_items(mod, ctx, items, deadline=None):
+    import signal
+    budget = getattr(mod, "ITEM_TIMEOUT_S", 180)
+
+    def on_alarm(signum, frame):
+        raise ItemTimeout()
+
+    try:
+        signal.signal(signal.SIGALRM, on_alarm)
+        have_alarm = True
+    except (ValueError, AttributeError):
+        have_alarm = False
     for it in items:
         if deadline and time.time() > deadline:
             ctx.extra["items_skipped_deadline"] += 1
             continue
         ctx.item = it
+        if have_alarm:
+            signal.setitimer(signal.ITIMER_REAL, budget)
         try:
             mod.run_item(ctx, it)
         except PartituraRaised as pr:
             ctx.raised(pr)
+        except ItemTimeout:
+            ctx.monitor_errors.append({"item": it, "traceback": f"ITEM-TIMEOUT after {budget}s (inconclusive)"})
         except Exception:  # the monitor itself failed: inconclusive, not a violation
             ctx.monitor_errors.append({"item": it, "traceback": traceback.format_exc()[-2500:]})
+        finally:
+            if have_alarm:
+                signal.setitimer(signal.ITIMER_REAL, 0)
     ctx.item = None
 
 
